@@ -70,7 +70,7 @@ func ulpClose32(a, b float32, rel float64) bool {
 // structural or beyond-quantisation difference, and whether any number was
 // inexact (coordInexact: a coordinate/angle/LOD; regInexact: a register
 // value, which happens legitimately for helper-computed gradient matrices).
-func compareCallLogs(direct, decoded []world.Op) (diff string, coordInexact, regInexact bool) {
+func compareCallLogs(direct, decoded []world.Op) (diff string, structural, coordInexact, rounded, regInexact, vbInexact bool) {
 	if len(direct) != len(decoded) {
 		n := min(len(direct), len(decoded))
 		extra := "<nothing>"
@@ -82,10 +82,10 @@ func compareCallLogs(direct, decoded []world.Op) (diff string, coordInexact, reg
 		// still look for an earlier difference
 		for i := 0; i < n; i++ {
 			if !world.SameCall(exp(direct[i]), &decoded[i]) {
-				return fmt.Sprintf("call #%d: direct %s, decoded %s (and %d vs %d calls)", i, direct[i].String(), decoded[i].String(), len(direct), len(decoded)), false, false
+				return fmt.Sprintf("call #%d: direct %s, decoded %s (and %d vs %d calls)", i, direct[i].String(), decoded[i].String(), len(direct), len(decoded)), true, false, false, false, false
 			}
 		}
-		return fmt.Sprintf("%d calls directly, %d calls via bytes; at #%d %s", len(direct), len(decoded), n, extra), false, false
+		return fmt.Sprintf("%d calls directly, %d calls via bytes; at #%d %s", len(direct), len(decoded), n, extra), true, false, false, false, false
 	}
 	for i := range direct {
 		a, b := exp(direct[i]), &decoded[i]
@@ -97,7 +97,7 @@ func compareCallLogs(direct, decoded []world.Op) (diff string, coordInexact, reg
 		a2.F, b2.F = [6]float32{}, [6]float32{}
 		a2.VB, b2.VB = ivg.ViewBox{}, ivg.ViewBox{}
 		if !world.SameCall(&a2, &b2) {
-			return fmt.Sprintf("call #%d: direct %s, decoded %s", i, a.String(), b.String()), false, false
+			return fmt.Sprintf("call #%d: direct %s, decoded %s", i, a.String(), b.String()), true, false, false, false, false
 		}
 		for j := range a.F {
 			if math.Float32bits(a.F[j]) == math.Float32bits(b.F[j]) {
@@ -106,22 +106,36 @@ func compareCallLogs(direct, decoded []world.Op) (diff string, coordInexact, reg
 			x, y := float64(a.F[j]), float64(b.F[j])
 			if a.K == world.KSetNReg {
 				if !ulpClose32(a.F[j], b.F[j], 1.0/(1<<20)) {
-					return fmt.Sprintf("call #%d: register value %g decoded as %g (beyond the 30-bit float form)", i, x, y), false, false
+					return fmt.Sprintf("call #%d: register value %g decoded as %g (beyond the 30-bit float form)", i, x, y), false, coordInexact, rounded, regInexact, vbInexact
 				}
 				regInexact = true
 				continue
 			}
+			if ulpClose32(a.F[j], b.F[j], 1.0/(1<<20)) {
+				rounded = true // the 4-byte form's rounding, nothing more
+				continue
+			}
 			tol := math.Max(1.0/128+1.0/2048, math.Abs(x)/(1<<20))
 			if !(math.Abs(x-y) <= tol) {
-				return fmt.Sprintf("call #%d %s: number %g decoded as %g (beyond coordinate quantisation)", i, a.K, x, y), false, false
+				return fmt.Sprintf("call #%d %s: number %g decoded as %g (beyond coordinate quantisation)", i, a.K, x, y), false, coordInexact, rounded, regInexact, vbInexact
 			}
 			coordInexact = true
 		}
 		if a.K == world.KReset && a.VB != b.VB {
-			return fmt.Sprintf("call #%d: viewBox %v decoded as %v", i, a.VB, b.VB), false, false
+			// the viewBox is not a path coordinate: it is never quantised to 1/64,
+			// off the lattice it travels in the 4-byte form
+			if ulpClose32(a.VB.MinX, b.VB.MinX, 1.0/(1<<20)) && ulpClose32(a.VB.MinY, b.VB.MinY, 1.0/(1<<20)) &&
+				ulpClose32(a.VB.MaxX, b.VB.MaxX, 1.0/(1<<20)) && ulpClose32(a.VB.MaxY, b.VB.MaxY, 1.0/(1<<20)) {
+				rounded, vbInexact = true, true
+			} else if diff == "" {
+				vbInexact = true
+				// not structural: the rasteriser comparison below decides, and it
+				// gets no extra slack for this
+				diff = fmt.Sprintf("call #%d: viewBox %v decoded as %v", i, a.VB, b.VB)
+			}
 		}
 	}
-	return "", coordInexact, regInexact
+	return diff, false, coordInexact, rounded, regInexact, vbInexact
 }
 
 func exp(o world.Op) *world.Op {
@@ -158,6 +172,12 @@ func comparePaint(a, b *world.PaintSnap, inexactRegs bool, vb ivg.ViewBox, rect 
 	sx := float64(rect.Dx()) / float64(vb.MaxX-vb.MinX)
 	sy := float64(rect.Dy()) / float64(vb.MaxY-vb.MinY)
 	bx, by := math.Abs(float64(vb.MinX)), math.Abs(float64(vb.MinY))
+	// a viewBox off the lattice travels in the 4-byte form (relative 2^-22 per
+	// bound); the spans are differences of bounds, so that rounding weighs M/S
+	// in the scale factors (M: largest bound, S: smallest span)
+	M := math.Max(math.Max(bx, by), math.Max(math.Abs(float64(vb.MaxX)), math.Abs(float64(vb.MaxY))))
+	S := math.Min(math.Abs(float64(vb.MaxX-vb.MinX)), math.Abs(float64(vb.MaxY-vb.MinY)))
+	relTol := math.Max(1e-5, (1+M/S)/(1<<19))
 	for row := 0; row < 2; row++ {
 		for col := 0; col < 3; col++ {
 			x, y := a.Xf[3*row+col], b.Xf[3*row+col]
@@ -168,7 +188,7 @@ func comparePaint(a, b *world.PaintSnap, inexactRegs bool, vb ivg.ViewBox, rect 
 			if col == 2 {
 				scale += 2 * (math.Abs(a.Xf[3*row])*math.Abs(sx)*bx + math.Abs(a.Xf[3*row+1])*math.Abs(sy)*by)
 			}
-			if !(math.Abs(x-y) <= 1e-5*scale) {
+			if !(math.Abs(x-y) <= relTol*scale) {
 				return fmt.Sprintf("gradient transform entry [%d][%d] differs: %v vs %v", row, col, x, y)
 			}
 		}
@@ -184,7 +204,7 @@ func comparePaint(a, b *world.PaintSnap, inexactRegs bool, vb ivg.ViewBox, rect 
 // the property speaks about rasteriser activity, so the logs are compared
 // with a tolerance of one coordinate quantum per segment since the path
 // started.
-func compareRaster(a, b []world.RastOp, mode int, regsExact bool, vb ivg.ViewBox, rect image.Rectangle) string {
+func compareRaster(a, b []world.RastOp, mode int, regsExact bool, vb ivg.ViewBox, rect image.Rectangle, maxAbs float64) string {
 	if len(a) != len(b) {
 		n := min(len(a), len(b))
 		for i := 0; i < n; i++ {
@@ -197,6 +217,12 @@ func compareRaster(a, b []world.RastOp, mode int, regsExact bool, vb ivg.ViewBox
 	sx := math.Abs(float64(rect.Dx()) / float64(vb.MaxX-vb.MinX))
 	sy := math.Abs(float64(rect.Dy()) / float64(vb.MaxY-vb.MinY))
 	quantum := math.Max(sx, sy) / 64
+	// conditioning of the viewBox: its bounds may have been rounded by the
+	// 4-byte form (relative 2^-22), the spans are differences of bounds, so
+	// the scale factors carry that rounding weighted by M/S
+	M := math.Max(maxAbs, math.Max(math.Max(math.Abs(float64(vb.MinX)), math.Abs(float64(vb.MaxX))), math.Max(math.Abs(float64(vb.MinY)), math.Abs(float64(vb.MaxY)))))
+	S := math.Min(math.Abs(float64(vb.MaxX-vb.MinX)), math.Abs(float64(vb.MaxY-vb.MinY)))
+	cond := (1 + M/S) / (1 << 19)
 	seg := 0
 	for i := range a {
 		x, y := &a[i], &b[i]
@@ -212,6 +238,8 @@ func compareRaster(a, b []world.RastOp, mode int, regsExact bool, vb ivg.ViewBox
 				continue
 			}
 			switch mode {
+			case 4:
+				// structure and paints only
 			case 0:
 				return fmt.Sprintf("rasteriser call #%d: %s directly, %s via bytes (every coordinate was carried exactly, so they must be bit-equal)", i, x.String(), y.String())
 			case 1:
@@ -222,15 +250,29 @@ func compareRaster(a, b []world.RastOp, mode int, regsExact bool, vb ivg.ViewBox
 				if math.IsNaN(u) && math.IsNaN(v) {
 					continue
 				}
-				if !(math.Abs(u-v) <= 6*quantum+math.Max(math.Abs(u), math.Abs(v))/(1<<17)) {
+				if !(math.Abs(u-v) <= 6*quantum+math.Max(math.Abs(u), math.Abs(v))/(1<<17)+(math.Abs(u)+math.Abs(v))*cond) {
 					return fmt.Sprintf("rasteriser call #%d: %s directly, %s via bytes (numbers reached the far end within quantisation, yet the rasteriser coordinates differ by more than a few quanta)", i, x.String(), y.String())
+				}
+			case 3:
+				// every number reached the far end within the rounding of the
+				// 4-byte form (relative 2^-22) and no coordinate was quantised to
+				// 1/64: the two pipelines may differ by float rounding and nothing
+				// else. M bounds the numbers, S the viewBox spans (the scale
+				// factors are W/S, so an error in a bound weighs M/S).
+				u, v := float64(x.F[j]), float64(y.F[j])
+				if math.IsNaN(u) && math.IsNaN(v) {
+					continue
+				}
+				tol := float64(1+seg)*math.Max(sx, sy)*M/(1<<19) + (math.Abs(u)+math.Abs(v))*cond
+				if !(math.Abs(u-v) <= tol) {
+					return fmt.Sprintf("rasteriser call #%d: %s directly, %s via bytes (no coordinate was quantised: every number reached the far end within the rounding of the 4-byte form, yet the rasteriser coordinates differ by %g, more than float rounding explains (%g))", i, x.String(), y.String(), math.Abs(u-v), tol)
 				}
 			case 2:
 				u, v := float64(x.F[j]), float64(y.F[j])
 				if math.IsNaN(u) && math.IsNaN(v) {
 					continue
 				}
-				if !(math.Abs(u-v) <= float64(seg)*quantum+1e-5*math.Max(math.Abs(u), math.Abs(v))) {
+				if !(math.Abs(u-v) <= float64(seg)*quantum+1e-5*math.Max(math.Abs(u), math.Abs(v))+(math.Abs(u)+math.Abs(v))*cond) {
 					return fmt.Sprintf("rasteriser call #%d: %s directly, %s via bytes (beyond coordinate quantisation)", i, x.String(), y.String())
 				}
 			}
@@ -398,18 +440,49 @@ func c07Run(ctx *Ctx, t *tape.Tape) *report.Violation {
 		return fail(viol("C07", "pipeline", "the bytes of a well-formed program do not decode: %v", derr))
 	}
 	_ = decode.Decode(d2, final)
-	diff, coordInexact, regInexact := compareCallLogs(d1.Calls, d2.Calls)
+	diff, structural, coordInexact, rounded, regInexact, vbInexact := compareCallLogs(d1.Calls, d2.Calls)
 	mode := 0
 	switch {
-	case diff != "":
+	case structural:
 		// The property is about rasteriser activity and paints, not about the
 		// call log (that is C01/C10): a stream that, say, omits a redundant
 		// call is fine as long as it renders the same.
 		mode = 2
 	case coordInexact:
 		mode = 1
+	case rounded || diff != "":
+		mode = 3
 	}
-	if d := compareRaster(z1.Ops, z2.Ops, mode, !regInexact, vb, tp.rect); d != "" {
+	if vbInexact && mode != 2 {
+		// Arcs are turned into curves through a square root that is
+		// ill-conditioned for half circles: under a viewBox that was rounded on
+		// the way the two pipelines may differ by the square root of that
+		// rounding, which no bound of the kind used below describes. Such runs
+		// are compared on structure and paints only.
+		for i := range d1.Calls {
+			if k := d1.Calls[i].K; k == world.KAbsArcTo || k == world.KRelArcTo {
+				mode = 4
+				if st != nil {
+					st.Add("runs_with_arcs_under_a_rounded_viewbox_(structure and paints only)", 1)
+				}
+				break
+			}
+		}
+	}
+	maxAbs := 0.0
+	for i := range d1.Calls {
+		if k := d1.Calls[i].K; k >= world.KStartPath && k != world.KSetLOD {
+			for j, f := range d1.Calls[i].F {
+				if (k == world.KAbsArcTo || k == world.KRelArcTo) && (j == 2 || j == 3) {
+					continue
+				}
+				if a := math.Abs(float64(f)); a > maxAbs && !math.IsInf(a, 0) {
+					maxAbs = a
+				}
+			}
+		}
+	}
+	if d := compareRaster(z1.Ops, z2.Ops, mode, !regInexact && !vbInexact, vb, tp.rect, maxAbs); d != "" {
 		if diff != "" {
 			d += "; the calls that reach the far end differ from the calls made: " + diff
 		}
